@@ -155,18 +155,28 @@ def sparse_large():
     return out
 
 
+# cost vectors whose ratio (wd + rd) / uf lies exactly on a threshold of the period formula as a real
+# number but NOT as a float (0.7 + 1.4 over 0.7 is 2.9999999999999996): used for the executor
+# properties only (C19 is not evaluated on them: there the float result is the library's business)
+INEXACT = [(7, 10, 7, 14, 10), (1, 10, 1, 2, 10), (7, 10, 14, 28, 10), (3, 10, 3, 6, 10)]
+
+
+def inexact_thresholds():
+    return revolve_family(12, (1, 2), INEXACT, cds=(1, 2), classes=("PeriodicDiskRevolve", "DiskRevolve", "HRevolve"))
+
+
 def ebox(tier, seed=0):
     """The trace box shared by the executor properties (C01-C04, C08, C09a, C11, C12, C18a)."""
     if tier == "quick":
         out = (multistage(12) + mixed(16) + revolve_family(12, (1, 2, 3, 4), COSTS8)
                + revolve_family(9, (1, 2, 3), FRAC, cds=(0, 1, 2))
-               + twolevel(12, 5, 3) + basic(12) + late_finalize() + sparse_large())
+               + twolevel(12, 5, 3) + basic(12) + late_finalize() + sparse_large() + inexact_thresholds())
     else:
         rnd = random.Random(seed)
         out = (multistage(26) + mixed(40)
                + revolve_family(30, (1, 2, 3, 4, 6), COSTS12, cds=(0, 1, 2, 3, 5))
                + revolve_family(20, (1, 2, 3), FRAC, cds=(0, 1, 2, 4))
-               + twolevel(30, 7, 4) + basic(40) + late_finalize())
+               + twolevel(30, 7, 4) + basic(40) + late_finalize() + inexact_thresholds())
         for _ in range(60):
             n = rnd.randint(41, 300)
             s = rnd.randint(1, min(n, 40))
